@@ -66,6 +66,7 @@ func C14types(p *load.Program, run *report.Run) {
 	}
 	// 2. Parse's scalar table
 	_, fd := dispatch.FindFunc(p, "types", "", "Parse")
+	fd = unwrapFunc(p, "types", fd)
 	if fd == nil {
 		run.Undecided("type-spelling-roundtrip", "types.Parse", "", "function not found")
 		return
